@@ -335,6 +335,7 @@ func strp(s string) *string { return &s }
 
 func genEngineCases(c *Ctx) []string {
 	var ls []string
+	ls = append(ls, genScenarioCases(c, c.Pick(120, 2400))...)
 	n := c.Pick(400, 8000)
 	for i := 0; i < n; i++ {
 		ec := &eCase{mode: "long", root: "root"}
@@ -385,6 +386,235 @@ func genEngineCases(c *Ctx) []string {
 		}
 		adaptiveInputs(c, ec)
 		// the same history in both modes
+		ec.mode = "long"
+		ls = append(ls, ec.String())
+		ec.mode = "pers"
+		ls = append(ls, ec.String())
+	}
+	return ls
+}
+
+// ---- scenario applications: small hand-shaped families aimed at behaviour the random pool reaches rarely ----
+
+func newScenario(flags int) *eCase {
+	return &eCase{mode: "long", root: "root", wf: true, flags: flags, nodes: map[string][]byte{}, nolabel: map[string]bool{},
+		langof: map[string]string{"nor": "nor", "no": "nor", "eng": "eng", "en": "eng", "swa": "swa", "fra": "fra", "fr": "fra"}}
+}
+
+func (ec *eCase) node(name, tpl string, is ...GInstr) {
+	var b []byte
+	for _, i := range is {
+		b = encodeVM(b, i)
+	}
+	ec.nodeOrd = append(ec.nodeOrd, name)
+	ec.nodes[name] = b
+	ec.tpls = append(ec.tpls, tblEntry{nil, name, tpl})
+}
+
+func (ec *eCase) catchNode() {
+	ec.node("_catch", "Oops", GInstr{Op: "MOUT", A: "back", B: "0"}, GInstr{Op: "HALT"}, GInstr{Op: "INCMP", A: "_", B: "0"})
+}
+
+func ins(ss ...string) [][]byte {
+	var r [][]byte
+	for _, s := range ss {
+		r = append(r, []byte(s))
+	}
+	return r
+}
+
+// deep chain: navigation depth and symbol count beyond 16, ascents, top, re-descent
+func scenDeep(c *Ctx) *eCase {
+	r := c.Rng
+	ec := newScenario(0)
+	depth := 3 + r.Intn(20)
+	name := func(k int) string {
+		if k == 0 {
+			return "root"
+		}
+		return fmt.Sprintf("n%02d", k)
+	}
+	many := r.Intn(depth)
+	for k := 0; k <= depth; k++ {
+		var is []GInstr
+		tp := fmt.Sprintf("level %d", k)
+		nsym := 1
+		if k == many {
+			nsym = 1 + r.Intn(20)
+		}
+		for s := 0; s < nsym; s++ {
+			sym := fmt.Sprintf("v%d_%d", k, s)
+			is = append(is, GInstr{Op: "LOAD", A: sym, N: 0})
+			ec.exts = append(ec.exts, extRule{sym: sym, callIdx: -1, content: fmt.Sprintf("%d.%d", k, s)})
+			if s == 0 {
+				is = append(is, GInstr{Op: "MAP", A: sym})
+				tp += " {{." + sym + "}}"
+			}
+		}
+		if k < depth {
+			is = append(is, GInstr{Op: "MOUT", A: "next", B: "1"})
+		}
+		is = append(is, GInstr{Op: "MOUT", A: "back", B: "0"}, GInstr{Op: "MOUT", A: "top", B: "9"}, GInstr{Op: "HALT"})
+		if k < depth {
+			is = append(is, GInstr{Op: "INCMP", A: name(k + 1), B: "1"})
+		}
+		is = append(is, GInstr{Op: "INCMP", A: "_", B: "0"}, GInstr{Op: "INCMP", A: "^", B: "9"})
+		ec.node(name(k), tp, is...)
+	}
+	ec.catchNode()
+	ec.inputs = ins("")
+	for k := 0; k < depth; k++ {
+		ec.inputs = append(ec.inputs, []byte("1"))
+	}
+	for k := 0; k < 2+r.Intn(4); k++ {
+		ec.inputs = append(ec.inputs, []byte([]string{"0", "0", "9", "1", "x"}[r.Intn(5)]))
+	}
+	return ec
+}
+
+// multi-byte text in templates, labels and loaded values, at output sizes around the page length
+func scenUtf8(c *Ctx) *eCase {
+	r := c.Rng
+	ec := newScenario(0)
+	words := []string{"Größe", "wählen", "größer", "kürzer", "äöüß", "€€€€€", "日本語", "naïve", "ok", "plain", "Ünï"}
+	w := func() string { return words[r.Intn(len(words))] }
+	ec.node("root", w()+" "+w()+": {{.val}}",
+		GInstr{Op: "LOAD", A: "val", N: 0}, GInstr{Op: "MAP", A: "val"}, GInstr{Op: "MOUT", A: "go", B: "1"}, GInstr{Op: "MOUT", A: "lst", B: "2"}, GInstr{Op: "HALT"},
+		GInstr{Op: "INCMP", A: "foo", B: "1"}, GInstr{Op: "INCMP", A: "lst", B: "2"})
+	ec.node("foo", w()+"\n"+w()+" "+w(), GInstr{Op: "MOUT", A: "back", B: "0"}, GInstr{Op: "HALT"}, GInstr{Op: "INCMP", A: "_", B: "0"})
+	ec.node("lst", w()+"\n{{.rows}}", GInstr{Op: "LOAD", A: "rows", N: 0}, GInstr{Op: "MAP", A: "rows"}, GInstr{Op: "MNEXT", A: "nx", B: "11"}, GInstr{Op: "MPREV", A: "pv", B: "22"},
+		GInstr{Op: "MOUT", A: "back", B: "0"}, GInstr{Op: "HALT"}, GInstr{Op: "INCMP", A: ">", B: "11"}, GInstr{Op: "INCMP", A: "<", B: "22"}, GInstr{Op: "INCMP", A: "_", B: "0"})
+	ec.catchNode()
+	var rows []string
+	for i := 0; i < 3+r.Intn(8); i++ {
+		rows = append(rows, w()+" "+w())
+	}
+	ec.exts = append(ec.exts, extRule{sym: "val", callIdx: -1, content: w() + w()}, extRule{sym: "rows", callIdx: -1, content: strings.Join(rows, "\n")})
+	ec.labels = append(ec.labels, tblEntry{nil, "go", w()}, tblEntry{nil, "back", w()}, tblEntry{nil, "nx", w()}, tblEntry{nil, "pv", w()})
+	natural := len(ec.tpls[0].text) + 10
+	ec.out = []int{0, natural - 8 + r.Intn(40), 30 + r.Intn(60), 48, 64}[r.Intn(5)]
+	ec.inputs = ins("", "1", "0", "2", "11", "11", "22", "0", "zzz")
+	return ec
+}
+
+// CROAK and CATCH placed in the input-handling part of a node, flags set by a handler
+func scenCroak(c *Ctx) *eCase {
+	r := c.Rng
+	ec := newScenario(4)
+	fl := uint32(8 + r.Intn(4))
+	mode := r.Intn(2) == 0
+	pre := []GInstr{GInstr{Op: "LOAD", A: "setter", N: 0}, GInstr{Op: "MOUT", A: "one", B: "1"}, GInstr{Op: "MOUT", A: "two", B: "2"}, GInstr{Op: "HALT"}}
+	var post []GInstr
+	post = append(post, GInstr{Op: "INCMP", A: "foo", B: "1"})
+	switch r.Intn(3) {
+	case 0:
+		post = append(post, GInstr{Op: "CROAK", N: fl, M: mode}, GInstr{Op: "INCMP", A: "bar", B: "2"})
+	case 1:
+		post = append(post, GInstr{Op: "CATCH", A: "bar", N: fl, M: mode}, GInstr{Op: "INCMP", A: "bar", B: "2"})
+	default:
+		post = append(post, GInstr{Op: "INCMP", A: "bar", B: "2"}, GInstr{Op: "CROAK", N: fl, M: mode}, GInstr{Op: "HALT"})
+	}
+	ec.node("root", "Root", append(pre, post...)...)
+	ec.node("foo", "Foo", GInstr{Op: "MOUT", A: "back", B: "0"}, GInstr{Op: "HALT"}, GInstr{Op: "INCMP", A: "_", B: "0"})
+	ec.node("bar", "Bar", GInstr{Op: "MOUT", A: "back", B: "0"}, GInstr{Op: "HALT"}, GInstr{Op: "INCMP", A: "_", B: "0"})
+	ec.catchNode()
+	var set []uint32
+	if r.Intn(2) == 0 {
+		set = []uint32{fl}
+	}
+	ec.exts = append(ec.exts, extRule{sym: "setter", callIdx: -1, content: "s", set: set})
+	ec.inputs = ins("", []string{"1", "2", "3", "x"}[r.Intn(4)], []string{"0", "1", "2", ""}[r.Intn(4)], []string{"0", "1", "2"}[r.Intn(3)], "2", "0")
+	return ec
+}
+
+// language selected by a handler, then language-dependent lookups in the same run and in later requests
+func scenLang(c *Ctx) *eCase {
+	r := c.Rng
+	ec := newScenario(0)
+	code := []string{"nor", "no", "fra", "eng", "en", "zzzz", ""}[r.Intn(7)]
+	ec.node("root", "Welcome", GInstr{Op: "MOUT", A: "pick", B: "1"}, GInstr{Op: "MOUT", A: "show", B: "2"}, GInstr{Op: "HALT"},
+		GInstr{Op: "INCMP", A: "pick", B: "1"}, GInstr{Op: "INCMP", A: "show", B: "2"})
+	ec.node("pick", "Picked {{.greet}}", GInstr{Op: "LOAD", A: "setlang", N: 0}, GInstr{Op: "LOAD", A: "greet", N: 0}, GInstr{Op: "MAP", A: "greet"},
+		GInstr{Op: "MOUT", A: "back", B: "0"}, GInstr{Op: "HALT"}, GInstr{Op: "INCMP", A: "_", B: "0"})
+	ec.node("show", "Show {{.greet2}}", GInstr{Op: "LOAD", A: "greet2", N: 0}, GInstr{Op: "MAP", A: "greet2"},
+		GInstr{Op: "MOUT", A: "back", B: "0"}, GInstr{Op: "HALT"}, GInstr{Op: "INCMP", A: "_", B: "0"})
+	ec.catchNode()
+	for _, l := range []string{"nor", "fra", "eng"} {
+		ec.tpls = append(ec.tpls, tblEntry{strp(l), "pick", "[" + l + "] {{.greet}}"}, tblEntry{strp(l), "root", "[" + l + "] root"}, tblEntry{strp(l), "show", "[" + l + "] {{.greet2}}"})
+		ec.labels = append(ec.labels, tblEntry{strp(l), "back", "back-" + l})
+		ec.exts = append(ec.exts, extRule{sym: "greet", callIdx: -1, lang: strp(l), content: "hello-" + l}, extRule{sym: "greet2", callIdx: -1, lang: strp(l), content: "again-" + l})
+	}
+	ec.exts = append(ec.exts, extRule{sym: "greet", callIdx: -1, content: "hello-default"}, extRule{sym: "greet2", callIdx: -1, content: "again-default"},
+		extRule{sym: "setlang", callIdx: -1, content: code, set: []uint32{7}})
+	if r.Intn(4) == 0 {
+		ec.lang = []string{"nor", "eng", "fra"}[r.Intn(3)]
+	}
+	ec.inputs = ins("", "1", "0", "2", "0", "1")
+	return ec
+}
+
+// a small cache and a RELOAD whose result grows and shrinks across calls
+func scenReload(c *Ctx) *eCase {
+	r := c.Rng
+	ec := newScenario(0)
+	ec.cache = []int{16, 32, 40}[r.Intn(3)]
+	ec.node("root", "Root {{.note}}", GInstr{Op: "LOAD", A: "note", N: uint32([]int{0, 50}[r.Intn(2)])}, GInstr{Op: "MAP", A: "note"}, GInstr{Op: "MOUT", A: "go", B: "1"}, GInstr{Op: "HALT"},
+		GInstr{Op: "INCMP", A: "edit", B: "1"})
+	ec.node("edit", "Edit {{.name}}", GInstr{Op: "LOAD", A: "name", N: uint32([]int{0, 60}[r.Intn(2)])}, GInstr{Op: "MAP", A: "name"}, GInstr{Op: "MOUT", A: "again", B: "5"}, GInstr{Op: "MOUT", A: "back", B: "0"},
+		GInstr{Op: "HALT"}, GInstr{Op: "INCMP", A: "_", B: "0"}, GInstr{Op: "RELOAD", A: "name"}, GInstr{Op: "RELOAD", A: "note"}, GInstr{Op: "MOVE", A: "."})
+	ec.catchNode()
+	sizes := []int{5, 3, 40, 3, 0, 12, 70, 1}
+	ec.exts = append(ec.exts, extRule{sym: "note", callIdx: -1, content: "nb"})
+	for i := 0; i < 12; i++ {
+		ec.exts = append([]extRule{{sym: "name", callIdx: i, content: strings.Repeat("x", sizes[r.Intn(len(sizes))])}}, ec.exts...)
+	}
+	ec.exts = append(ec.exts, extRule{sym: "name", callIdx: -1, content: "bob"})
+	ec.inputs = ins("", "1", "5", "5", "5", "0", "1", "5", "0", "1")
+	return ec
+}
+
+// values and rows with leading/trailing blanks and newlines (trimming must not touch content)
+func scenBlanks(c *Ctx) *eCase {
+	r := c.Rng
+	ec := newScenario(0)
+	vals := []string{"  1 apple", " 12 mango ", "tail\n", "Karibu!\nYour balance is 42\n", "\tTabbed", " ", "a \n b\n", "x"}
+	v := func() string { return vals[r.Intn(len(vals))] }
+	var rows []string
+	for i := 0; i < 4+r.Intn(10); i++ {
+		rows = append(rows, fmt.Sprintf("%3d %s", i+1, []string{"apple", "banana", "cherry ", " date", "elderberry"}[r.Intn(5)]))
+	}
+	ec.node("root", "Top {{.msg}}", GInstr{Op: "LOAD", A: "msg", N: 0}, GInstr{Op: "MAP", A: "msg"}, GInstr{Op: "MOUT", A: "lst", B: "1"}, GInstr{Op: "HALT"}, GInstr{Op: "INCMP", A: "lst", B: "1"})
+	ec.node("lst", "fruit\n{{.rows}}", GInstr{Op: "LOAD", A: "rows", N: 0}, GInstr{Op: "MAP", A: "rows"}, GInstr{Op: "MNEXT", A: "nx", B: "11"}, GInstr{Op: "MPREV", A: "pv", B: "22"},
+		GInstr{Op: "MOUT", A: "back", B: "0"}, GInstr{Op: "HALT"}, GInstr{Op: "INCMP", A: ">", B: "11"}, GInstr{Op: "INCMP", A: "<", B: "22"}, GInstr{Op: "INCMP", A: "_", B: "0"})
+	ec.catchNode()
+	ec.exts = append(ec.exts, extRule{sym: "msg", callIdx: -1, content: v()}, extRule{sym: "rows", callIdx: -1, content: strings.Join(rows, "\n")})
+	ec.out = []int{0, 60, 80, 90, 120}[r.Intn(5)]
+	ec.inputs = ins("", "1", "11", "11", "22", "11", "0", "1")
+	return ec
+}
+
+// the last loaded value of every request ends in a newline (the persisted record then ends in it)
+func scenNewlineLast(c *Ctx) *eCase {
+	r := c.Rng
+	ec := newScenario(0)
+	ec.node("root", "Hi {{.msg}}", GInstr{Op: "LOAD", A: "msg", N: 0}, GInstr{Op: "MAP", A: "msg"}, GInstr{Op: "MOUT", A: "go", B: "1"}, GInstr{Op: "HALT"}, GInstr{Op: "INCMP", A: "mid", B: "1"})
+	ec.node("mid", "Mid {{.bal}}", GInstr{Op: "LOAD", A: "bal", N: 0}, GInstr{Op: "MAP", A: "bal"}, GInstr{Op: "MOUT", A: "go", B: "1"}, GInstr{Op: "MOUT", A: "back", B: "0"}, GInstr{Op: "HALT"},
+		GInstr{Op: "INCMP", A: "deep", B: "1"}, GInstr{Op: "INCMP", A: "_", B: "0"})
+	ec.node("deep", "Deep {{.fin}}", GInstr{Op: "LOAD", A: "fin", N: 0}, GInstr{Op: "MAP", A: "fin"}, GInstr{Op: "MOUT", A: "back", B: "0"}, GInstr{Op: "HALT"}, GInstr{Op: "INCMP", A: "_", B: "0"})
+	ec.catchNode()
+	nl := []string{"\n", "\n", "\n\n", " \n"}
+	ec.exts = append(ec.exts, extRule{sym: "msg", callIdx: -1, content: "Karibu!" + nl[r.Intn(4)]}, extRule{sym: "bal", callIdx: -1, content: "Your balance is 42" + nl[r.Intn(4)]},
+		extRule{sym: "fin", callIdx: -1, content: "done" + nl[r.Intn(4)]})
+	ec.inputs = ins("", "1", "1", "0", "0", "1")
+	return ec
+}
+
+var scenarios = []func(*Ctx) *eCase{scenNewlineLast, scenDeep, scenUtf8, scenCroak, scenLang, scenReload, scenBlanks}
+
+func genScenarioCases(c *Ctx, n int) []string {
+	var ls []string
+	for i := 0; i < n; i++ {
+		ec := scenarios[i%len(scenarios)](c)
 		ec.mode = "long"
 		ls = append(ls, ec.String())
 		ec.mode = "pers"
